@@ -48,7 +48,7 @@ var defaultGraphNodeAttrs = map[string]string{
 func WriteDOTGraph(w io.Writer, tree *ImmutableTree, paths []PathToLeaf) {
 	ctx := &graphContext{}
 
-	tree.root.hashWithCount(tree.version + 1)
+	tree.root.hashWithCount(tree.nextVersion())
 	tree.root.traverse(tree, true, func(node *Node) bool {
 		graphNode := &graphNode{
 			Attrs: map[string]string{},
